@@ -21,6 +21,7 @@ import (
 	"strings"
 	"sync"
 	"sync/atomic"
+	"syscall"
 	"time"
 
 	"github.com/fabiolb/fabio/config"
@@ -40,6 +41,8 @@ const (
 	blockedCapMs = 3000 // a Shutdown still running this long after the deadline is reported as "over" (blocked)
 	settleMs     = 250  // time given to clients to observe what Shutdown did to them
 	probeAtMs    = 120  // first connect attempt after shutdown began
+	// a listener whose start was pending is watched this long after its address became free
+	pendingWatchMs = 1200
 )
 
 type SrvIn struct {
@@ -53,6 +56,14 @@ type SrvIn struct {
 	// called from another goroutine 50 ms before proxy.Shutdown, as main.go's refresher does. Its work must be
 	// endless tunnels: CloseProxy cuts them (that is not shutdown's doing), and the server is no longer registered.
 	Removed bool `json:"removed,omitempty"`
+	// http and inetaf (https child): websocket sessions (upgraded requests; the proxy hijacks the connection, so
+	// net/http's Shutdown neither waits for them nor closes them) with their natural ends.
+	WS []*int `json:"ws,omitempty"`
+	// any kind, no work: the listener is still being started when shutdown begins — its address is held by another
+	// socket (bound, not listening: connects are refused, binds fail with EADDRINUSE) from before the
+	// ListenAndServe* call until Pending ms after proxy.Shutdown was called. A start that has not registered by
+	// then must not produce a listener afterwards.
+	Pending int `json:"pending,omitempty"`
 }
 
 type ScenarioIn struct {
@@ -64,6 +75,7 @@ type SrvOut struct {
 	Work  []string `json:"work"`
 	HWork []string `json:"hwork"`
 	Dial  []string `json:"dial"`
+	WS    []string `json:"ws"`
 }
 
 type ScenarioOut struct {
@@ -108,13 +120,24 @@ func (in *ScenarioIn) validate() error {
 				}
 			}
 		}
+		if len(s.WS) > 0 && s.Kind != "http" && s.Kind != "inetaf" {
+			return errors.New("websocket sessions only through an http or https+tcp+sni listener")
+		}
+		if s.Pending != 0 {
+			if s.Pending < 50 || s.Pending > 1000 {
+				return errors.New("pending outside [50,1000] ms")
+			}
+			if len(s.Work)+len(s.HWork)+len(s.WS) > 0 || s.Dial != 0 || s.Removed {
+				return errors.New("pending: a listener that is not up yet carries no work")
+			}
+		}
 		if s.Dial < 0 || s.Dial > 4 {
 			return errors.New("dial outside [0,4]")
 		}
-		if len(s.Work)+len(s.HWork) > 8 {
+		if len(s.Work)+len(s.HWork)+len(s.WS) > 8 {
 			return errors.New("too much work on one server")
 		}
-		for _, e := range append(append([]*int{}, s.Work...), s.HWork...) {
+		for _, e := range append(append(append([]*int{}, s.Work...), s.HWork...), s.WS...) {
 			if e == nil {
 				continue
 			}
@@ -225,14 +248,58 @@ type server struct {
 	// tcp handlers: when toBlackhole is set, Lookup answers with the black-holed upstream; lookups counts them
 	toBlackhole atomic.Bool
 	lookups     atomic.Int32
+	// pending start: releases the address; startErr is what ListenAndServe* returned, once it has
+	free     func()
+	returned atomic.Bool
+	startErr error
 }
 
-func startServer(kind string, u *upstreams) (*server, error) {
-	addr, err := freeAddr()
+// occupy binds addr without listening and without SO_REUSEADDR: connection attempts are refused, every other
+// bind of the address fails with EADDRINUSE until the returned function is called.
+func occupy(addr string) (func(), error) {
+	host, ps, err := net.SplitHostPort(addr)
 	if err != nil {
 		return nil, err
 	}
-	s := &server{kind: kind, addr: addr, errc: make(chan error, 1)}
+	var port int
+	fmt.Sscanf(ps, "%d", &port)
+	ip := net.ParseIP(host).To4()
+	if ip == nil {
+		return nil, fmt.Errorf("occupy: %q is not an IPv4 address", addr)
+	}
+	fd, err := syscall.Socket(syscall.AF_INET, syscall.SOCK_STREAM, 0)
+	if err != nil {
+		return nil, err
+	}
+	sa := &syscall.SockaddrInet4{Port: port}
+	copy(sa.Addr[:], ip)
+	if err := syscall.Bind(fd, sa); err != nil {
+		syscall.Close(fd)
+		return nil, err
+	}
+	var once sync.Once
+	return func() { once.Do(func() { syscall.Close(fd) }) }, nil
+}
+
+func startServer(kind string, u *upstreams, pending bool) (*server, error) {
+	var addr string
+	var err error
+	var free func()
+	for try := 0; ; try++ { // somebody else may take the port between the probe and the bind
+		if addr, err = freeAddr(); err != nil {
+			return nil, err
+		}
+		if !pending {
+			break
+		}
+		if free, err = occupy(addr); err == nil {
+			break
+		}
+		if try == 20 {
+			return nil, err
+		}
+	}
+	s := &server{kind: kind, addr: addr, errc: make(chan error, 1), free: free}
 	l := config.Listen{Addr: addr}
 	gopts := grpcProxyOpts(u)
 	bh, _ := blackhole() // "" when the host cannot build one; scenarios with pending dials then fail to set up
@@ -270,8 +337,13 @@ func startServer(kind string, u *upstreams) (*server, error) {
 			m := func(_ context.Context, h string) bool { return h == sniTCPName }
 			err = proxy.ListenAndServeHTTPSTCPSNI(l, httpProxy(), &tcp.SNIProxy{DialTimeout: dialTimeout, Lookup: fixed(u.tlsAddr)}, tlscfg, m)
 		}
+		s.startErr = err
+		s.returned.Store(true)
 		s.errc <- err
 	}()
+	if pending {
+		return s, nil
+	}
 	if err := waitListening(addr, s.errc); err != nil {
 		return nil, err
 	}
@@ -298,6 +370,62 @@ func lineClient(it *item, c net.Conn) {
 		return
 	}
 	it.set("cut", fmt.Sprintf("%q %v", l2, err))
+}
+
+// wsClient performs a websocket handshake for /ws/<id> on c and then follows the line protocol.
+func wsClient(it *item, c net.Conn, host string) {
+	defer c.Close()
+	req := "GET /ws/" + it.id + " HTTP/1.1\r\nHost: " + host + "\r\nUpgrade: websocket\r\nConnection: Upgrade\r\n" +
+		"Sec-WebSocket-Version: 13\r\nSec-WebSocket-Key: dmVyaWYtYzE4LXdzLWtleQ==\r\n\r\n"
+	if _, err := io.WriteString(c, req); err != nil {
+		it.set("cut", "write: "+err.Error())
+		return
+	}
+	br := bufio.NewReader(c)
+	status, err := br.ReadString('\n')
+	if err != nil || !strings.HasPrefix(status, "HTTP/1.1 101") {
+		it.set("cut", fmt.Sprintf("handshake: %q %v", status, err))
+		return
+	}
+	for {
+		h, err := br.ReadString('\n')
+		if err != nil {
+			it.set("cut", "handshake headers: "+err.Error())
+			return
+		}
+		if strings.TrimSpace(h) == "" {
+			break
+		}
+	}
+	l1, err := br.ReadString('\n')
+	if err != nil || strings.TrimSpace(l1) != "ack" {
+		it.set("cut", fmt.Sprintf("before ack: %q %v", l1, err))
+		return
+	}
+	l2, err := br.ReadString('\n')
+	if err == nil && strings.TrimSpace(l2) == "done" {
+		it.set("completed", "")
+		return
+	}
+	it.set("cut", fmt.Sprintf("%q %v", l2, err))
+}
+
+func startWS(kind, addr string, it *item) {
+	go func() {
+		d := &net.Dialer{Timeout: 2 * time.Second}
+		var c net.Conn
+		var err error
+		if kind == "inetaf" {
+			c, err = tls.DialWithDialer(d, "tcp", addr, &tls.Config{ServerName: sniHTTPSName, InsecureSkipVerify: true})
+		} else {
+			c, err = d.Dial("tcp", addr)
+		}
+		if err != nil {
+			it.set("cut", "dial: "+err.Error())
+			return
+		}
+		wsClient(it, c, addr)
+	}()
 }
 
 func startWork(kind string, https bool, addr string, it *item) {
@@ -422,23 +550,32 @@ func runOnce(in *ScenarioIn) (*ScenarioOut, error) {
 	out := &ScenarioOut{Attempts: 1, Servers: []SrvOut{}}
 	var srvs []*server
 	var all []workRef
-	perSrv := make([][3][]workRef, len(in.Servers))
+	perSrv := make([][4][]workRef, len(in.Servers)) // work, hwork, dial, ws
 	cleanup := func() {
 		for _, w := range all {
 			w.it.Release()
+		}
+		for _, s := range srvs {
+			if s != nil && s.free != nil {
+				s.free()
+			}
 		}
 		proxy.Close()
 		for _, w := range all {
 			dropItem(w.it)
 		}
 	}
-	for _, si := range in.Servers {
-		s, err := startServer(si.Kind, u)
+	srvs = make([]*server, len(in.Servers))
+	for i, si := range in.Servers {
+		if si.Pending != 0 {
+			continue // started last, just before the shutdown
+		}
+		s, err := startServer(si.Kind, u, false)
 		if err != nil {
 			cleanup()
 			return nil, err
 		}
-		srvs = append(srvs, s)
+		srvs[i] = s
 	}
 	for i, si := range in.Servers {
 		for _, e := range si.Work {
@@ -452,6 +589,12 @@ func runOnce(in *ScenarioIn) (*ScenarioOut, error) {
 			all = append(all, w)
 			perSrv[i][1] = append(perSrv[i][1], w)
 			startWork(si.Kind, true, srvs[i].addr, w.it)
+		}
+		for _, e := range si.WS {
+			w := workRef{newItem(), e}
+			all = append(all, w)
+			perSrv[i][3] = append(perSrv[i][3], w)
+			startWS(si.Kind, srvs[i].addr, w.it)
 		}
 	}
 	inflight := time.After(5 * time.Second)
@@ -506,9 +649,38 @@ func runOnce(in *ScenarioIn) (*ScenarioOut, error) {
 		time.Sleep(50 * time.Millisecond)
 	}
 
+	// listeners whose start is still in progress when the shutdown begins: the address is taken, ListenAndServe*
+	// is called 100 ms before proxy.Shutdown
+	anyPending := false
+	for i, si := range in.Servers {
+		if si.Pending == 0 {
+			continue
+		}
+		s, err := startServer(si.Kind, u, true)
+		if err != nil {
+			cleanup()
+			return nil, err
+		}
+		srvs[i] = s
+		anyPending = true
+	}
+	if anyPending {
+		time.Sleep(100 * time.Millisecond)
+	}
+
 	wait := time.Duration(in.Wait) * time.Millisecond
 	t0 := time.Now()
 	var timers []*time.Timer
+	var lastFree time.Duration
+	for i, si := range in.Servers {
+		if si.Pending != 0 {
+			d := time.Duration(si.Pending) * time.Millisecond
+			timers = append(timers, time.AfterFunc(d, srvs[i].free))
+			if d > lastFree {
+				lastFree = d
+			}
+		}
+	}
 	for _, w := range all {
 		if w.end != nil {
 			w := w
@@ -544,6 +716,28 @@ func runOnce(in *ScenarioIn) (*ScenarioOut, error) {
 			out.Notes = append(out.Notes, fmt.Sprintf("%s %s accepted a connection after proxy.Shutdown returned", s.kind, s.addr))
 		}
 	}
+	// an address that was busy while its listener was being started is watched until well after it became free
+	if anyPending {
+		until := t0.Add(lastFree + pendingWatchMs*time.Millisecond)
+		for time.Now().Before(until) {
+			for i, s := range srvs {
+				if in.Servers[i].Pending != 0 && !out.Accepted[i] && probe(s.addr) {
+					out.Accepted[i] = true
+					out.Notes = append(out.Notes, fmt.Sprintf("%s %s (start pending when shutdown began, address free %d ms after) accepted a connection %d ms after shutdown began", s.kind, s.addr, in.Servers[i].Pending, time.Since(t0).Milliseconds()))
+				}
+			}
+			time.Sleep(40 * time.Millisecond)
+		}
+		for i, s := range srvs {
+			if in.Servers[i].Pending != 0 {
+				if s.returned.Load() {
+					out.Notes = append(out.Notes, fmt.Sprintf("%s %s: ListenAndServe returned: %v", s.kind, s.addr, s.startErr))
+				} else {
+					out.Notes = append(out.Notes, fmt.Sprintf("%s %s: ListenAndServe had not returned %d ms after shutdown began", s.kind, s.addr, time.Since(t0).Milliseconds()))
+				}
+			}
+		}
+	}
 	time.Sleep(settleMs * time.Millisecond)
 	out.DurMs = dur.Milliseconds()
 	switch {
@@ -555,7 +749,10 @@ func runOnce(in *ScenarioIn) (*ScenarioOut, error) {
 		out.Dur = "deadline"
 	}
 	for i := range in.Servers {
-		so := SrvOut{Work: []string{}, HWork: []string{}, Dial: []string{}}
+		so := SrvOut{Work: []string{}, HWork: []string{}, Dial: []string{}, WS: []string{}}
+		for _, w := range perSrv[i][3] {
+			so.WS = append(so.WS, w.it.get())
+		}
 		for _, w := range perSrv[i][2] {
 			so.Dial = append(so.Dial, w.it.get())
 		}
@@ -612,6 +809,11 @@ func suspicious(in *ScenarioIn, out *ScenarioOut) bool {
 		}
 		for j, e := range s.HWork {
 			if e != nil && *e <= in.Wait && out.Servers[i].HWork[j] != "completed" {
+				return true
+			}
+		}
+		for j, e := range s.WS {
+			if e != nil && *e <= in.Wait && out.Servers[i].WS[j] != "completed" {
 				return true
 			}
 		}
